@@ -139,6 +139,11 @@ func (db *DB) Start(initCheckpoints []recovery.CheckpointHandle) error {
 	db.sstables = latestCP.Levels
 	db.seqNum = latestCP.Levels.LatestSeqNum
 
+	// Continue the table numbering after the restored tables: when the database
+	// is reopened in the directory of the checkpoint it restores, new table
+	// files must not replace the files its level list still references.
+	db.tableWriter.AdvancePast(latestCP.Levels.MaxTableFileNum())
+
 	// Start a new writer that doesn't write to a file yet.
 	db.wal = wal.NewWriter(db.fs, latestCP.NextWALID(), db.maxWALSize)
 
